@@ -26,7 +26,17 @@ import (
 type decodeInfo struct {
 	subrs [][]byte
 	seacs []seacInfo
+
+	// numOps counts the charstring operators executed for this font.
+	numOps int
 }
+
+// maxCharStringOps is the number of charstring operators a font program may
+// execute in total.  Subroutines can call each other ten levels deep, and
+// every level can call the next one many times, so that a few hundred bytes
+// of charstrings expand to an unbounded amount of work and memory.  No real
+// font comes anywhere near this limit.
+const maxCharStringOps = 1 << 22
 
 type seacInfo struct {
 	name         string
@@ -143,6 +153,11 @@ glyphLoop:
 				code = code[5:]
 				// fmt.Println("# push", stack[len(stack)-1])
 				continue
+			}
+
+			info.numOps++
+			if info.numOps > maxCharStringOps {
+				return nil, invalidSince("too many charstring operators")
 			}
 
 			if op == 12 {
